@@ -288,7 +288,7 @@ func c18Tail(p *Prog, r *Report, fi *FuncInfo) {
 			if cs.nilRecv {
 				env.Vars[recv] = &Val{Nil: true}
 			} else {
-				env.Vars[recv] = &Val{Ptr: &Val{Fields: map[string]*Val{"arr": {Tag: "arr"}}}}
+				env.Vars[recv] = &Val{Ptr: &Val{Fields: map[string]*Val{fileFields.Arr: {Tag: "arr"}}}}
 			}
 			env.Hook = func(env *Env, e ast.Expr) (*Val, bool) {
 				if c, ok := e.(*ast.CallExpr); ok && len(c.Args) == 1 {
@@ -327,7 +327,7 @@ func c18Tail(p *Prog, r *Report, fi *FuncInfo) {
 			// reaches a return of the zero version without dereferencing the result
 			fin := p.FlatInlExcept(lb, kBinarySearch)
 			env := &Env{P: p, Pkg: lb.Pkg, Vars: map[types.Object]*Val{}}
-			env.Vars[recv] = &Val{Ptr: &Val{Fields: map[string]*Val{"arr": {Tag: "arr"}}}}
+			env.Vars[recv] = &Val{Ptr: &Val{Fields: map[string]*Val{fileFields.Arr: {Tag: "arr"}}}}
 			env.Hook = func(env *Env, e ast.Expr) (*Val, bool) {
 				if c, ok := e.(*ast.CallExpr); ok {
 					if id, ok := c.Fun.(*ast.Ident); ok && id.Name == "len" && len(c.Args) == 1 {
